@@ -720,6 +720,156 @@ def reduceat_pass(run: Run, pkg: Package, funcs: List[FunctionInfo]) -> int:
 
 
 # --------------------------------------------------------------------------------------------------------------------
+def _local_def(fi: FunctionInfo, name: str) -> Optional[ast.AST]:
+    """the single local assignment `name = <expr>` of the function (None when there is none or more than one)"""
+    vals = [st.value for st in ast.walk(fi.node) if isinstance(st, ast.Assign) and len(st.targets) == 1 and isinstance(st.targets[0], ast.Name) and st.targets[0].id == name]
+    return vals[0] if len(vals) == 1 else None
+
+
+def _floor_quotient(fi: FunctionInfo, e: ast.AST, depth: int = 2) -> Optional[Tuple[ast.AST, ast.AST]]:
+    """(A, B) when the expression is floor(A / B), possibly clamped from below: A // B, int(A / B), max(A // B, 1)"""
+    if isinstance(e, ast.Name) and depth:
+        d = _local_def(fi, e.id)
+        return _floor_quotient(fi, d, depth - 1) if d is not None else None
+    if isinstance(e, ast.BinOp) and isinstance(e.op, ast.FloorDiv):
+        return e.left, e.right
+    if isinstance(e, ast.Call) and isinstance(e.func, ast.Name) and e.func.id == "int" and len(e.args) == 1 and isinstance(e.args[0], ast.BinOp) and isinstance(e.args[0].op, ast.Div):
+        return e.args[0].left, e.args[0].right
+    if isinstance(e, ast.Call) and isinstance(e.func, ast.Name) and e.func.id == "max" and len(e.args) == 2:
+        for a, b in ((e.args[0], e.args[1]), (e.args[1], e.args[0])):
+            if isinstance(b, ast.Constant) and b.value in (0, 1):
+                return _floor_quotient(fi, a, depth)
+    return None
+
+
+def blocktail_pass(run: Run, pkg: Package, funcs: List[FunctionInfo]) -> int:
+    """R-BLOCKTAIL: a loop that treats an array of length A in blocks of B rows, `for n in range(A // B): X[n*B:(n+1)*B]`,
+    visits floor(A / B) * B rows; unless a remainder is handled, the last A mod B rows are in no block.  Decided only when the
+    loop count is literally the floor quotient of the length of the sliced array and the block size, the block size does not
+    derive from that length, and nothing in the function looks at a remainder (`%`, a slice starting at count * B, ceil)."""
+    n = 0
+    for fi in funcs:
+        for loop in ast.walk(fi.node):
+            if not (isinstance(loop, ast.For) and isinstance(loop.target, ast.Name) and isinstance(loop.iter, ast.Call) and isinstance(loop.iter.func, ast.Name)
+                    and loop.iter.func.id == "range" and len(loop.iter.args) == 1):
+                continue
+            q = _floor_quotient(fi, loop.iter.args[0])
+            if q is None or not isinstance(q[1], ast.Name):
+                continue
+            A, B = q
+            k, b = loop.target.id, q[1].id
+            lo_forms = {f"{k} * {b}", f"{b} * {k}"}
+            hi_forms = {f"({k} + 1) * {b}", f"{b} * ({k} + 1)", f"{k} * {b} + {b}", f"{b} * {k} + {b}", f"({k} * {b}) + {b}"}
+            blocks = []        # names bound to slice(k*B, (k+1)*B) and direct subscripts
+            for st in ast.walk(loop):
+                lo = hi = None
+                if isinstance(st, ast.Call) and isinstance(st.func, ast.Name) and st.func.id == "slice" and len(st.args) == 2:
+                    lo, hi = st.args
+                elif isinstance(st, ast.Slice) and st.lower is not None and st.upper is not None and st.step is None:
+                    lo, hi = st.lower, st.upper
+                if lo is not None and ast.unparse(lo) in lo_forms and ast.unparse(hi) in hi_forms:
+                    blocks.append(st)
+            if not blocks:
+                continue
+            n += 1
+            # the arrays cut into blocks
+            slice_names = {st.targets[0].id for st in ast.walk(loop) if isinstance(st, ast.Assign) and len(st.targets) == 1 and isinstance(st.targets[0], ast.Name)
+                           and any(st.value is bl for bl in blocks)}
+            cut = set()
+            for sub in ast.walk(loop):
+                if isinstance(sub, ast.Subscript) and isinstance(sub.value, ast.Name):
+                    sl = sub.slice.elts[0] if isinstance(sub.slice, ast.Tuple) and sub.slice.elts else sub.slice
+                    if any(sl is bl for bl in blocks) or (isinstance(sl, ast.Name) and sl.id in slice_names):
+                        cut.add(sub.value.id)
+            # A is the length of one of them
+            a_txt = ast.unparse(A)
+            if isinstance(A, ast.Name):
+                d = _local_def(fi, A.id)
+                a_txt = ast.unparse(d) if d is not None else a_txt
+            lengths = {f"{x}.shape[0]" for x in cut} | {f"len({x})" for x in cut}
+            if a_txt not in lengths:
+                continue
+            # the block size must not derive from that length; nothing may handle a remainder
+            bd = _local_def(fi, b)
+            a_names = {A.id} if isinstance(A, ast.Name) else set()
+            if bd is not None and ({m.id for m in ast.walk(bd) if isinstance(m, ast.Name)} & (a_names | cut)):
+                continue
+            whole = ast.unparse(fi.node)
+            if any(isinstance(x, ast.BinOp) and isinstance(x.op, ast.Mod) for x in ast.walk(fi.node)) or "ceil" in whole or "array_split" in whole or "divmod" in whole:
+                continue
+            cnt = ast.unparse(loop.iter.args[0])
+            if any(isinstance(x, ast.Slice) and x.lower is not None and (cnt in ast.unparse(x.lower)) for x in ast.walk(fi.node)):
+                continue
+            run.ob("R-BLOCKTAIL", short(fi.qual), f"{k}@{norm_stmt(loop)[:60]}", False,
+                   "a computation carried out block by block covers every row of the array",
+                   f"for {k} in range({cnt}) with blocks [{k}*{b}, ({k}+1)*{b}) of {', '.join(sorted(cut))}; the loop count is floor({a_txt} / {b}) and no remainder is treated",
+                   witness=f"{a_txt} = 2 * {b} + 1: two full blocks are visited, the last row is in no block", loc=fi.loc(loop), sound=True)
+    return n
+
+
+# --------------------------------------------------------------------------------------------------------------------
+def genskip_pass(run: Run, pkg: Package, funcs: List[FunctionInfo]) -> int:
+    """R-GENSKIP: a generator that walks `range(n)` and yields one item per index, but skips some indices (`continue` before
+    the yield, or a yield under a test), while a consumer pairs the items with their position (`enumerate(gen(...))`,
+    `zip(range(...), gen(...))`) and uses that position as an index: every item after a skipped one lands on the wrong index."""
+    n = 0
+    for fi in funcs:
+        par = None
+        for loop in ast.walk(fi.node):
+            if not (isinstance(loop, ast.For) and isinstance(loop.iter, ast.Call) and isinstance(loop.iter.func, ast.Name) and loop.iter.func.id in ("enumerate", "zip")):
+                continue
+            it = loop.iter
+            gens = [a for a in it.args if isinstance(a, ast.Call)]
+            idx = None
+            if it.func.id == "enumerate" and len(it.args) == 1 and isinstance(loop.target, ast.Tuple) and isinstance(loop.target.elts[0], ast.Name):
+                idx = loop.target.elts[0].id
+            elif it.func.id == "zip" and isinstance(loop.target, ast.Tuple):
+                for a, t in zip(it.args, loop.target.elts):
+                    if isinstance(a, ast.Call) and isinstance(a.func, ast.Name) and a.func.id == "range" and isinstance(t, ast.Name):
+                        idx = t.id
+            if idx is None:
+                continue
+            for gc in gens:
+                g = resolve_callee(pkg, fi, gc)
+                if g is None or not any(isinstance(y, ast.Yield) for y in ast.walk(g.node)):
+                    continue
+                n += 1
+                gpar = parents_map(g.node)
+                skipping = None
+                for gl in ast.walk(g.node):
+                    if not (isinstance(gl, ast.For) and isinstance(gl.iter, ast.Call) and isinstance(gl.iter.func, ast.Name) and gl.iter.func.id == "range"):
+                        continue
+                    ys = [y for y in ast.walk(gl) if isinstance(y, ast.Yield)]
+                    if not ys:
+                        continue
+                    for c in ast.walk(gl):
+                        if isinstance(c, ast.Continue) and c.lineno < min(y.lineno for y in ys):
+                            anc = _ancestors(c, gpar, gl)
+                            if any(isinstance(a, ast.If) for a in anc):
+                                skipping = c
+                    for y in ys:
+                        anc = _ancestors(y, gpar, gl)
+                        ifs = [a for a in anc if isinstance(a, ast.If)]
+                        for a in ifs:
+                            # a yield in one arm only
+                            other = a.orelse if any(y in ast.walk(x) for x in a.body) else a.body
+                            if not any(isinstance(z, ast.Yield) for x in other for z in ast.walk(x)):
+                                skipping = a
+                if skipping is None:
+                    continue
+                uses = [sub for sub in ast.walk(loop) if isinstance(sub, ast.Subscript) and any(isinstance(m, ast.Name) and m.id == idx for m in ast.walk(sub.slice))]
+                if not uses:
+                    continue
+                run.ob("R-GENSKIP", short(fi.qual), f"{idx}@{norm_stmt(loop)[:60]}", False,
+                       "items produced per index are paired with the index they were produced for",
+                       f"{ast.unparse(it)[:70]}: {short(g.qual)} skips an index ({ast.unparse(skipping).splitlines()[0][:60]}) while the consumer uses the running position `{idx}` as index "
+                       f"({ast.unparse(uses[0])[:40]})",
+                       witness="an index for which the generator's test holds (e.g. a particle without neighbours): every later item is attributed to the index before its own",
+                       loc=fi.loc(loop), sound=True)
+    return n
+
+
+# --------------------------------------------------------------------------------------------------------------------
 def savepath_pass(run: Run, pkg: Package, funcs: List[FunctionInfo]) -> int:
     """R-SAVE-PATH: a routine that writes its result to a file named by one of its parameters does so on every path that returns
     a result.  A `return <value>` that precedes the first save site (an early exit / fast path) hands back a value without
@@ -986,5 +1136,7 @@ def state_pass(run: Run, pkg: Package, everything: bool = False, mask_forward_on
             "dict_value_arrays": dictorder_pass(run, pkg, funcs),
             "label_count_loops": labelcount_pass(run, pkg, funcs),
             "reduceat_calls": reduceat_pass(run, pkg, funcs),
+            "block_loops": blocktail_pass(run, pkg, funcs),
+            "indexed_generators": genskip_pass(run, pkg, funcs),
         })
     run.extra["state_rules"] = {"functions": len(funcs), **counts}
